@@ -122,7 +122,7 @@ Qed.
 Lemma parse_print_Q q : wfQ q -> parse_Q (print_Q q) = Some q.
 Proof.
   intros Hq. unfold parse_Q, print_Q. rewrite split_at_app.
-  - rewrite !parse_print_Z. destruct q as [n d]. simpl. unfold wfQ in Hq. rewrite Hq. reflexivity.
+  - rewrite !parse_print_Z. destruct q as [n d]. cbn [Qnum Qden]. unfold wfQ in Hq. rewrite Hq. reflexivity.
   - apply forallb_impl with (p := numc); [|apply print_Z_numc]. intros x Hx. rewrite (numc_slash _ Hx). reflexivity.
   - reflexivity.
 Qed.
@@ -133,9 +133,12 @@ Proof.
 Qed.
 Lemma print_Q_good q : good_word (print_Q q) = true.
 Proof.
-  destruct (print_Q_cons q) as (c & r & E & Hc). unfold good_word. rewrite E. simpl nonempty. simpl is_comment.
-  rewrite (numc_hash _ Hc). rewrite <- E. unfold print_Q. rewrite forallb_app. simpl.
-  rewrite (forallb_impl _ _ _ numc_good (print_Z_numc _)), (forallb_impl _ _ _ numc_good (print_Z_numc _)). reflexivity.
+  destruct (print_Q_cons q) as (c & r & E & Hc). unfold good_word.
+  apply andb_true_intro; split; [apply andb_true_intro; split|].
+  - rewrite E. reflexivity.
+  - unfold print_Q. rewrite forallb_app. simpl.
+    rewrite (forallb_impl _ _ _ numc_good (print_Z_numc _)), (forallb_impl _ _ _ numc_good (print_Z_numc _)). reflexivity.
+  - rewrite E. simpl. rewrite (numc_hash _ Hc). reflexivity.
 Qed.
 Lemma print_Q_notNA q : is_NA (print_Q q) = false.
 Proof.
@@ -243,36 +246,39 @@ Proof.
   rewrite E. reflexivity.
 Qed.
 
+Lemma comment_line_eq t cs : (W "# " ++ t ++ [nl]) ++ cs = W "# " ++ t ++ nl :: cs.
+Proof. rewrite <- !app_assoc. reflexivity. Qed.
+Lemma titled_val_eq w t cs : (w ++ W " # " ++ t ++ [nl]) ++ cs = w ++ sp :: (W "# " ++ t ++ nl :: cs).
+Proof. rewrite <- !app_assoc. reflexivity. Qed.
+
+Lemma lex_vec_line ws cs : forallb good_word ws = true ->
+  lex ((flat_map (fun w => w ++ [sp]) ws ++ [nl]) ++ cs) = ws :: lex cs.
+Proof.
+  rewrite <- app_assoc. simpl. induction ws as [|w ws IH]; simpl; intros H.
+  - apply lex_nl.
+  - apply andb_prop in H. destruct H as [Hw Hws].
+    rewrite <- !app_assoc. simpl. rewrite lex_word_sp; auto. rewrite IH; auto.
+Qed.
+
 Lemma lex_print_rec r cs : good_rec r = true -> lex (print_rec r ++ cs) = lay r (lex cs).
 Proof.
-  destruct r as [w|t w|t ws|t]; simpl; intros H.
+  destruct r as [w|t w|t ws|t]; intros H; unfold print_rec, lay, good_rec in *.
   - (* RTag: "w\n" *)
     rewrite <- app_assoc. simpl.
     unfold good_word in H. apply andb_prop in H. destruct H as [H Hc]. apply andb_prop in H. destruct H as [Hn Hg].
     unfold lex. rewrite segs_word, segs_nl; auto. simpl. rewrite app_nil_r, Hn. simpl.
-    destruct (is_comment w); simpl in Hc; try congruence. reflexivity.
-  - apply andb_prop in H. destruct H as [Ht Hw]. destruct t as [|c t]; simpl null; cbv iota.
+    destruct (is_comment w); simpl in Hc; try congruence; try reflexivity.
+  - apply andb_prop in H. destruct H as [Ht Hw]. destruct t as [|c t]; cbn [null].
     + rewrite <- app_assoc. simpl. apply lex_word_sp; auto.
-    + change (W " # ") with (sp :: W "# "). rewrite <- !app_assoc. simpl app at 2.
-      rewrite lex_word_sp; auto.
-      change (W "# " ++ (c :: t) ++ [nl] ++ cs) with (W "# " ++ (c :: t) ++ nl :: cs).
-      rewrite lex_comment_line; auto.
+    + rewrite titled_val_eq. rewrite lex_word_sp; auto. rewrite lex_comment_line; auto.
   - apply andb_prop in H. destruct H as [Ht Hws].
-    assert (Hv : forall cs', lex (flat_map (fun w => w ++ [sp]) ws ++ nl :: cs') = ws :: lex cs').
-    { intros cs'. induction ws as [|w ws IH]; simpl.
-      - apply lex_nl.
-      - simpl in Hws. apply andb_prop in Hws. destruct Hws as [Hw Hws].
-        rewrite <- !app_assoc. simpl. rewrite lex_word_sp; auto. rewrite IH; auto. }
-    destruct t as [|c t]; simpl null; cbv iota.
-    + simpl. rewrite <- app_assoc. simpl. apply Hv.
-    + rewrite <- !app_assoc. simpl app at 3.
-      change (W "# " ++ (c :: t) ++ [nl] ++ flat_map (fun w : list ascii => w ++ [sp]) ws ++ nl :: cs)
-        with (W "# " ++ (c :: t) ++ nl :: (flat_map (fun w : list ascii => w ++ [sp]) ws ++ nl :: cs)).
-      rewrite lex_comment_line; auto. rewrite Hv. reflexivity.
-  - destruct t as [|c t]; simpl null; cbv iota.
+    destruct t as [|c t]; cbn [null].
+    + rewrite app_nil_l. apply lex_vec_line; auto.
+    + rewrite <- app_assoc. rewrite comment_line_eq. rewrite lex_comment_line; auto.
+      rewrite lex_vec_line; auto.
+  - destruct t as [|c t]; cbn [null].
     + simpl. apply lex_nl.
-    + rewrite <- !app_assoc. change (W "# " ++ (c :: t) ++ [nl] ++ cs) with (W "# " ++ (c :: t) ++ nl :: cs).
-      apply lex_comment_line; auto.
+    + rewrite comment_line_eq. apply lex_comment_line; auto.
 Qed.
 
 Lemma lex_print_app rs cs : forallb good_rec rs = true -> lex (print rs ++ cs) = layout rs (lex cs).
@@ -352,12 +358,17 @@ Proof.
   apply reads_val. unfold parse_int. rewrite print_Z_notNA, parse_print_Z. destruct b; reflexivity.
 Qed.
 
+Lemma weqb_refl w : weqb w w = true.
+Proof. induction w; simpl; auto. rewrite Ascii.eqb_refl; auto. Qed.
+Lemma weqb_eq a b : weqb a b = true -> a = b.
+Proof.
+  revert b. induction a as [|x a IH]; destruct b as [|y b]; simpl; try congruence.
+  intros H. apply andb_prop in H. destruct H as [H1 H2]. apply Ascii.eqb_eq in H1. f_equal; auto.
+Qed.
 Lemma reads_tag w : reads (rd_tag w) [RTag w] tt.
 Proof.
   intros s s0 E. unfold rd_tag. rewrite <- rword_sk, E, rword_sk. simpl.
-  assert (Hw : weqb w w = true).
-  { induction w; simpl; auto. rewrite Ascii.eqb_refl; auto. }
-  rewrite Hw. exists ([] :: s). auto.
+  rewrite weqb_refl. exists ([] :: s). auto.
 Qed.
 
 Lemma mapM_map {A B} (p : word -> option B) (pr : A -> word) (f : A -> B) l :
@@ -372,7 +383,7 @@ Lemma reads_vec {A} (p : word -> option A) t ws v n :
 Proof.
   intros Hp Hne -> s s0 E. unfold rd_vec. rewrite <- rline_sk, E, rline_sk. simpl.
   destruct ws as [|w ws]; try congruence.
-  destruct (null t); simpl rline; rewrite Z.eqb_refl, Hp; eauto.
+  destruct (null t); simpl rline; cbv beta iota; rewrite Z.eqb_refl, Hp; eauto.
 Qed.
 
 Lemma reads_vdbl t ds : Forall wf_dbl ds -> ds <> [] -> reads (rd_vdbl (Z.of_nat (length ds))) [r_vdbl t ds] ds.
